@@ -507,8 +507,7 @@ mod race_hook {
 }
 
 /// phase: 0 = hold thread 1 before its first count operation, 1 = after it, anything else = free-running
-pub fn race_child(entry: usize, phase: u8) -> i32 {
-    let start = isize::MAX as usize;
+pub fn race_child(entry: usize, phase: u8, start: usize) -> i32 {
     let a: Arc<u64> = Arc::new(5);
     let t: ThinArc<u32, u16> = ThinArc::from_header_and_slice(1, &[1u16, 2]);
     let (addr_a, addr_t) = match (learn_addr(&|| {
@@ -581,9 +580,40 @@ pub fn race_parent(entry: usize, st: &mut OStats) -> R {
         msg: format!("current_exe: {}", e),
     })?;
     let phases: &[u8] = if cfg!(triomphe_verif) { &[0, 1, 9, 9, 9] } else { &[9, 9, 9, 9] };
+    // far below the limit two racing clones both succeed and add exactly one each, whatever the interleaving
+    for (k, phase) in phases.iter().enumerate() {
+        for start in [1usize, 2] {
+            let out = std::process::Command::new(&exe)
+                .args(["ovrace", &format!("entry={}", entry), &format!("phase={}", phase), &format!("start={}", start)])
+                .output()
+                .map_err(|e| Viol {
+                    props: "",
+                    oracle: "harness",
+                    msg: format!("spawn: {}", e),
+                })?;
+            let so = String::from_utf8_lossy(&out.stdout).to_string();
+            let what = format!("{} from count {}, phase {}", RACE_ENTRIES[entry], start, phase);
+            if so.contains("HARNESS") || !so.contains("BEFORE") {
+                return viol("", "harness", format!("{}: child could not set up: {}", what, so.trim()));
+            }
+            let want = format!("AFTER word={}", start + 2);
+            ensure!(
+                out.status.success() && so.lines().any(|l| l == want),
+                "C16,C04",
+                "overflow",
+                "{}: two concurrent clones below the limit must both succeed and add exactly one each; child ended with {:?} and printed '{}'",
+                what,
+                out.status,
+                so.lines().find(|l| l.starts_with("AFTER")).unwrap_or("")
+            );
+            st.counts.bump("overflow.race.cloned");
+            st.counts.bump("overflow.children");
+            st.cases.insert(hash64(&format!("race-low|{}|{}|{}|{}", entry, phase, k, start)));
+        }
+    }
     for (k, phase) in phases.iter().enumerate() {
         let out = std::process::Command::new(&exe)
-            .args(["ovrace", &format!("entry={}", entry), &format!("phase={}", phase)])
+            .args(["ovrace", &format!("entry={}", entry), &format!("phase={}", phase), &format!("start={}", isize::MAX as usize)])
             .output()
             .map_err(|e| Viol {
                 props: "",
